@@ -109,7 +109,16 @@ pub fn glyf_composite(bbox: (i16, i16, i16, i16), comps: &[CompModel], instructi
     if let Some(ins) = instructions {
         b.u16(ins.len() as u16).bytes(ins);
     }
-    b.into_vec()
+    let mut v = b.into_vec();
+    // "If the number of contours is negative, this is a composite glyph; -1 should be used":
+    // every negative value marks a composite. One record in six (chosen by its content) carries
+    // another negative value.
+    let h = crate::engine::util::fnv1a(&v);
+    if h % 6 == 0 {
+        let noc: i16 = [-2, -3, -7, -256, -32768, -(2 + (h >> 8) as i16 % 100).abs() - 1][(h >> 4) as usize % 6];
+        v[0..2].copy_from_slice(&noc.to_be_bytes());
+    }
+    v
 }
 
 #[derive(Clone, Debug)]
